@@ -97,6 +97,18 @@ for fn, nm in ((1, 'strspn_s'), (2, 'strcspn_s'), (3, 'strpbrk_s')):
       enforce='_%s_chk' % nm, functions=['_%s_chk' % nm], sliced=False, timeout=600, fallback='B.q.%s' % nm,
       note='two NESTED loops under contract; two separate exact-fit objects of symbolic size, dmax / slen any 64-bit value, object sizes known or unknown to the library')
 
+for fn, nm in ((1, 'memchr_s'), (2, 'memrchr_s')):
+    J('C.%s' % nm, ['C10', 'C02', 'C05', 'C01'], 'C', 'contracts/extmem/memchr_s.spec.c', defines=['FN=%d' % fn],
+      sources=['src/extmem/%s.c' % nm], enforce='_%s_chk' % nm, functions=['_%s_chk' % nm], timeout=300, fallback='B.q.%s' % nm,
+      note='loop-free wrapper, full domain; libc memchr/memrchr as assumed contract whose requires side (n readable bytes) is the C02 obligation at the call site',
+      assumptions=['libc memchr / memrchr behave as the C standard / glibc manual says (ghost body in contracts/extmem/memchr_s.spec.c): NULL iff no byte of s[0..n) equals (unsigned char)c, else the first / last such byte'])
+
+J('C.strchr_s', ['C10', 'C02', 'C05', 'C01'], 'C', 'contracts/extstr/strchr_s.spec.c',
+  sources=['src/extstr/strchr_s.c'], enforce='_strchr_s_chk', functions=['_strchr_s_chk'], timeout=300, fallback='B.q.strchr_s',
+  note='loop-free wrapper, full domain; callee _strnlen_s_chk replaced by the contract proved in A.strnlen_s (restated as ghost body), libc memchr as assumed contract; their requires sides are the C02 obligations at the call sites',
+  assumptions=['libc memchr behaves as the C standard says (ghost body in contracts/extstr/strchr_s.spec.c)',
+               'the restated _strnlen_s_chk contract (result = smax or index of the first NUL) is the one job A.strnlen_s proves for the real function; the correspondence of the two texts is by inspection'])
+
 for fn, nm in ((1, 'timingsafe_bcmp'), (2, 'timingsafe_memcmp')):
     src = 'src/extmem/%s.c' % nm
     J('A.%s' % nm, ['C19', 'C02', 'C05', 'C01'], 'A', 'contracts/extmem/timingsafe.spec.c',
